@@ -643,6 +643,93 @@ fn ifdata_list_diff(a: &[IfData], b: &[IfData]) -> Option<String> {
 }
 
 /// where two models differ (best effort, for the violation detail)
+/// Debug rendering of an element with every `IfData { .. }` part cut out (IF_DATA trees carry line numbers and position
+/// ids in their Debug output; they are compared separately) and the sign of a zero dropped
+fn debug_without_ifdata<T: std::fmt::Debug>(x: &T) -> String {
+    let d = format!("{x:?}");
+    if !d.contains("IfData {") {
+        return if d.contains("-0.0") { d.replace("-0.0", "0.0") } else { d };
+    }
+    let mut out = String::with_capacity(d.len());
+    let b = d.as_bytes();
+    let mut i = 0;
+    while i < b.len() {
+        if b[i] == b'I' && d[i..].starts_with("IfData {") {
+            // skip to the matching brace; braces inside string literals of the Debug output are escaped as they are,
+            // so strings are skipped as a whole
+            let mut depth = 0i32;
+            let mut j = i;
+            let mut in_str = false;
+            while j < b.len() {
+                let c = b[j];
+                if in_str {
+                    if c == b'\\' {
+                        j += 1;
+                    } else if c == b'"' {
+                        in_str = false;
+                    }
+                } else if c == b'"' {
+                    in_str = true;
+                } else if c == b'{' {
+                    depth += 1;
+                } else if c == b'}' {
+                    depth -= 1;
+                    if depth == 0 {
+                        break;
+                    }
+                }
+                j += 1;
+            }
+            out.push_str("IfData");
+            i = j + 1;
+        } else {
+            let ch = d[i..].chars().next().unwrap();
+            out.push(ch);
+            i += ch.len_utf8();
+        }
+    }
+    out.replace("-0.0", "0.0")
+}
+
+/// an equality that does not go through the crate's PartialEq: element by element Debug renderings (IF_DATA excluded).
+/// Returns the first difference. Used as a cross-check when PartialEq says "equal".
+pub fn independent_diff(a: &A2lFile, b: &A2lFile) -> Option<String> {
+    let top = |f: &A2lFile| format!("{:?}|{:?}|{:?}|{:?}|{:?}", f.asap2_version, f.a2ml_version, f.project.header, f.project.get_name(), f.project.long_identifier);
+    if debug_without_ifdata(&top(a)) != debug_without_ifdata(&top(b)) {
+        return Some("top-level items".to_string());
+    }
+    if a.project.module.len() != b.project.module.len() {
+        return Some("number of modules".to_string());
+    }
+    for (ma, mb) in a.project.module.iter().zip(b.project.module.iter()) {
+        let single = |m: &Module| format!("{:?}|{:?}|{:?}|{:?}|{:?}|{:?}|{:?}", m.get_name(), m.long_identifier, m.a2ml, m.mod_common, m.mod_par, m.variant_coding, m.user_rights);
+        if debug_without_ifdata(&single(ma)) != debug_without_ifdata(&single(mb)) {
+            return Some(format!("MODULE {}: name / A2ML / MOD_COMMON / MOD_PAR / VARIANT_CODING / USER_RIGHTS", ma.get_name()));
+        }
+        macro_rules! lists {
+            ($($f:ident),*) => { $(
+                if ma.$f.len() != mb.$f.len() {
+                    return Some(format!("{}: {} vs {} elements", stringify!($f), ma.$f.len(), mb.$f.len()));
+                }
+                for (x, y) in ma.$f.iter().zip(mb.$f.iter()) {
+                    let dx = debug_without_ifdata(x);
+                    let dy = debug_without_ifdata(y);
+                    if dx != dy {
+                        let pos = dx.bytes().zip(dy.bytes()).position(|(p, q)| p != q).unwrap_or(dx.len().min(dy.len()));
+                        let mut s1 = pos.saturating_sub(60);
+                        while !dx.is_char_boundary(s1) { s1 -= 1; }
+                        let mut s2 = pos.saturating_sub(60).min(dy.len());
+                        while !dy.is_char_boundary(s2) { s2 -= 1; }
+                        return Some(format!("{} {}: ...{} vs ...{}", stringify!($f), x.get_name(), crate::runner::clip(&dx[s1..], 160), crate::runner::clip(&dy[s2..], 160)));
+                    }
+                }
+            )* };
+        }
+        lists!(measurement, characteristic, compu_method, group, function, unit, record_layout, compu_vtab, axis_pts, compu_tab, compu_vtab_range, frame, instance, blob, transformer, typedef_axis, typedef_blob, typedef_characteristic, typedef_measurement, typedef_structure);
+    }
+    None
+}
+
 pub fn model_diff(a: &A2lFile, b: &A2lFile) -> String {
     let mut out = Vec::new();
     if a.asap2_version != b.asap2_version {
@@ -1188,10 +1275,18 @@ impl Scenario for C01Cycles {
                         m2 == model
                     }
                 })?;
+                let strict_compare = !nm.order_disturbed && !nm.reserved_order_free;
                 nm.order_disturbed = false;
                 if !equal {
                     let d = model_diff(&model, &m2);
                     return Err(cx.fail("O2", "reloaded-model-differs", format!("cycle {cycle}: load(write(M)) != M: {d}")));
+                }
+                // (rendering whole models is slow: the first cycle and every fourth one after it)
+                if strict_compare && (cycle == 1 || cx.tape.chance(1, 4)) {
+                    // cross-check that does not rely on the crate's own PartialEq implementations
+                    if let Some(d) = guarded(cx, "no-panic", "Debug rendering of the models", || independent_diff(&model, &m2))? {
+                        return Err(cx.fail("O2", "equal-by-PartialEq-but-Debug-renderings-differ", format!("cycle {cycle}: the crate's == calls the reloaded model equal, the Debug renderings (IF_DATA excluded) differ: {d}")));
+                    }
                 }
                 // the file written with a banner is not the text itself (the banner line shifts everything): new baseline
                 prev_text = if banner_used { None } else { Some(text) };
